@@ -317,6 +317,125 @@ def analyse_parallel(ctx, model, fv, fi, arm_body, site):
     return spec, mp.args[1], filters, mp, res
 
 
+
+DICT_MUTATORS = {"setdefault", "update", "pop", "popitem", "clear", "append", "extend", "insert", "remove", "sort", "reverse", "add", "discard", "__setitem__", "__delitem__"}
+
+
+def check_shared(ctx: Ctx, callee_q: str, n_fixed: int, site: str):
+    """SHARED: the per-item callee T(*fixed, item, **kw) receives the *same* fixed/keyword objects for
+    every item in the serial arm and pickled copies in the workers.  A write into such an object is
+    invisible to later items in parallel runs but visible in serial runs, unless what is written does
+    not depend on the item (idempotent defaults).  Decided by a flow-insensitive taint closure from
+    the item parameter to every mutation of another parameter's object."""
+    m = ctx.model
+    if callee_q not in m.functions:
+        ctx.undecided("SHARED", site, None, f"callee {callee_q} is outside the repository")
+        return
+    fi = m.func(callee_q)
+    fv = view(m, fi)
+    ctx.analysed(fi)
+    a = fi.node.args
+    pos = [x.arg for x in a.posonlyargs + a.args]
+    if n_fixed >= len(pos):
+        ctx.undecided("SHARED", site, fi, "item parameter not identified")
+        return
+    item = pos[n_fixed]
+    shared = [p for p in pos + [x.arg for x in a.kwonlyargs] if p != item]
+    tainted = {item}
+    changed = True
+    assigns = []
+    for n in walk_no_nested(fi.node):
+        if isinstance(n, ast.Assign):
+            assigns.append((n.targets, n.value))
+        elif isinstance(n, ast.AnnAssign) and n.value is not None:
+            assigns.append(([n.target], n.value))
+        elif isinstance(n, ast.AugAssign):
+            assigns.append(([n.target], n.value))
+        elif isinstance(n, (ast.For, ast.comprehension)):
+            assigns.append(([n.target], n.iter))
+        elif isinstance(n, ast.NamedExpr):
+            assigns.append(([n.target], n.value))
+        elif isinstance(n, ast.withitem) and n.optional_vars is not None:
+            assigns.append(([n.optional_vars], n.context_expr))
+    while changed:
+        changed = False
+        for targets, value in assigns:
+            if names_in(value) & tainted:
+                for t in targets:
+                    base = t
+                    while isinstance(base, (ast.Attribute, ast.Subscript, ast.Starred)):
+                        base = base.value
+                    for x in ([base] if isinstance(base, ast.Name) else [y for y in ast.walk(t) if isinstance(y, ast.Name) and isinstance(y.ctx, ast.Store)]):
+                        if x.id not in tainted and x.id not in shared:
+                            tainted.add(x.id)
+                            changed = True
+    n_mut = 0
+    for node in fv.cfg.nodes:
+        for root in fv._roots(node):
+            for n in walk_no_nested(root):
+                target = val = None
+                if isinstance(n, ast.Call) and isinstance(n.func, ast.Attribute) and n.func.attr in DICT_MUTATORS and isinstance(n.func.value, ast.Name) and n.func.value.id in shared:
+                    target, val = n.func.value.id, n
+                elif isinstance(n, ast.Subscript) and isinstance(n.ctx, (ast.Store, ast.Del)) and isinstance(n.value, ast.Name) and n.value.id in shared:
+                    target, val = n.value.id, node.stmt
+                if target is None:
+                    continue
+                # does the caller's object reach here?  (a rebinding such as `p = dict(p)` ends sharing)
+                defs = fv.IN[node].get(target, frozenset())
+                if fv.cfg.entry not in defs:
+                    continue
+                n_mut += 1
+                msite = f"{site}:{target}@{getattr(n, 'lineno', 0) - fi.node.lineno}"
+                msite = f"{site}:{target}.{n.func.attr if isinstance(n, ast.Call) else 'store'}"
+                removes = isinstance(n, ast.Call) and n.func.attr in ("pop", "popitem", "clear", "remove", "discard")
+                dep = names_in(val) & tainted
+                if removes:
+                    ctx.violate("SHARED", msite, (fi, n), f"`{U(n)[:60]}` removes entries from the caller's `{target}`, which the serial loop passes to every item: "
+                                "the first item sees a different object than later ones, while each worker process gets a pristine copy")
+                elif dep:
+                    ctx.violate("SHARED", msite, (fi, n), f"`{U(val)[:70]}` writes a value derived from the item ({sorted(dep)}) into the caller's `{target}`: in a serial run the "
+                                "entry written for the first item is seen by all later items, in parallel runs every task starts from a pickled pristine copy — results differ")
+                else:
+                    ctx.hold("SHARED", msite, (fi, n), f"write into the shared `{target}` does not depend on the item (`{item}`): idempotent across items")
+    if not n_mut:
+        ctx.hold("SHARED", site + ":none", fi, f"{fi.name} does not write into objects it shares with other items")
+
+
+def check_workers(ctx: Ctx, fi, parallel_body, site):
+    """the pool size is None for 'auto' and the requested number otherwise (any positive number,
+    including more workers than items, and an empty item list, must work)"""
+    m = ctx.model
+    fv = view(m, fi)
+    from ..astutil import value_cases, truth_of
+
+    ex = None
+    for s in parallel_body:
+        for n in ast.walk(s):
+            if isinstance(n, ast.With):
+                for it in n.items:
+                    if isinstance(it.context_expr, ast.Call) and ((m.callee(fv.mod, it.context_expr) or "").endswith("PoolExecutor")):
+                        ex = (n, it.context_expr)
+    if ex is None:
+        ctx.undecided("PARMAP", site + ":workers", fi, "executor construction not found")
+        return
+    w, call = ex
+    arg = kwarg(call, "max_workers") or (call.args[0] if call.args else None)
+    if arg is None:
+        ctx.hold("PARMAP", site + ":workers", (fi, call), "default pool size")
+        return
+    vals = set()
+    for dec, v in value_cases(fv, w, arg):
+        vals.add((truth_of(dec, "num_processes == 'auto'"), U(v)))
+    ok = vals == {(True, "None"), (False, "num_processes")}
+    if ok:
+        ctx.hold("PARMAP", site + ":workers", (fi, call), "pool size: None for 'auto', otherwise exactly the requested number")
+    elif any("len(" in v or ".size" in v for _, v in vals):
+        ctx.violate("PARMAP", site + ":workers", (fi, call), f"pool size {sorted(vals, key=str)} is derived from the number of items: an empty item list gives max_workers=0, "
+                    "for which ProcessPoolExecutor raises ValueError, while the serial branch returns an empty list")
+    else:
+        ctx.undecided("PARMAP", site + ":workers", (fi, call), f"pool size {sorted(vals, key=str)} not recognised")
+
+
 def check_split(ctx: Ctx, fi, ifnode):
     model = ctx.model
     fv = view(model, fi)
@@ -337,6 +456,8 @@ def check_split(ctx: Ctx, fi, ifnode):
     if par is None:
         return
     pspec, piter, pfilters, mp, pres = par
+    check_workers(ctx, fi, parallel_body, site)
+    check_shared(ctx, pspec.target, len(pspec.fixed), site + ":shared")
     # serial: assignment to the same result variable
     sres = arm_result(fv, serial_body, want_name=pres, only=lambda val: isinstance(val, (ast.GeneratorExp, ast.ListComp)) or (isinstance(val, ast.Call) and dotted(val.func) in ("list", "tuple", "display_progress")))
     if not sres:
@@ -521,7 +642,8 @@ def check(ctx: Ctx):
             iteronce.check_function(ctx, fi)
     check_pure(ctx)
     check_fixture(ctx)
-    ctx.expect("PARMAP", 12)
+    ctx.expect("PARMAP", 14)
+    ctx.expect("SHARED", 2)
     ctx.expect("FORWARD", 2)
     ctx.expect("ITER-ONCE", 1)
     ctx.expect("PURE", 40)
